@@ -60,7 +60,7 @@ def run(idx, rep, tier):
                 continue
             bad = br.run()
             evs = sorted(br.events.values(), key=lambda e: e[2].lineno)
-            deriv = [f"{e[0]}: {e[1]} @{m.rel}:{e[2].lineno}" for e in evs]
+            deriv = [f"{e[0]}: {e[1]} @{m.rel}:{getattr(e[2], '_src_line', e[2].lineno)}" for e in evs]
             if bad:
                 s = bad[0]
                 what = f"leaked:{s[1]}" if s[0] == "leaked" else "dirty-at-exit"
@@ -101,7 +101,7 @@ def run(idx, rep, tier):
                 if isinstance(par, ast.Call) and par.func is node:
                     continue
                 fi = idx.funcs_by_node.get(p)
-                rep.undecided("rng-reference", f"{cname(fi) if fi else '<lambda>'}", f"`{dotted}` used as a value (not called) at {m.rel}:{node.lineno}")
+                rep.undecided("rng-reference", f"{cname(fi) if fi else '<lambda>'}", f"`{dotted}` used as a value (not called) at {m.rel}:{getattr(node, '_src_line', node.lineno)}")
                 continue
             n_refs += 1
             if isinstance(par, ast.Assign) and par.value is node and role in ("draw", "seed"):
